@@ -104,19 +104,17 @@ Definition read_v0_0 (h : header) : prog body :=
   dop D <- plift (num_dims h);                         (* max(len(c.format)) - 1: ValueError without components *)
   let T := total_points h in
   dop frames <- prep (N.to_nat (snd ff)) (rd_frame00 (h_comps h) T D);
-  match frames with
-  | [] => Fail Value                                   (* ma.stack of an empty list *)
-  | _ =>
-    (* NumPyPoseBody.__init__: the masked array is an ndarray, so mask = confidence == 0 is stacked
-       data.shape[-1] times (raises for 0) and combined (or) with the array's own mask *)
-    if (D <=? 0)%Z then Fail Value else
-    let conf := flat_map (fun f => snd (fst f)) frames in
-    Ret {| b_fps := f32_of_u16 (fst ff);
-           b_shape := [snd ff; 1; T; Z.to_N D];
-           b_data := flat_map (fun f => fst (fst f)) frames;
-           b_conf := conf;
-           b_mask := map (fun mc => orb (fst mc) (is_zero32 (snd mc))) (combine (flat_map (fun f => snd f) frames) conf) |}
-  end.
+  (* no frames: np.zeros((0, 1, _points, _dims)), np.zeros((0, 1, _points)) (ValueError for _dims < 0) - the same
+     empty arrays the general case below produces.
+     NumPyPoseBody.__init__: the masked array is an ndarray, so mask = confidence == 0 is stacked
+     data.shape[-1] times (raises for 0) and combined (or) with the array's own mask *)
+  if (D <=? 0)%Z then Fail Value else
+  let conf := flat_map (fun f => snd (fst f)) frames in
+  Ret {| b_fps := f32_of_u16 (fst ff);
+         b_shape := [snd ff; 1; T; Z.to_N D];
+         b_data := flat_map (fun f => fst (fst f)) frames;
+         b_conf := conf;
+         b_mask := map (fun mc => orb (fst mc) (is_zero32 (snd mc))) (combine (flat_map (fun f => snd f) frames) conf) |}.
 
 (* the hook of PoseRead.read_body_with: both legacy decoders ignore start_time / end_time, v0.0 ignores
    every window argument (unused_kwargs) *)
